@@ -123,6 +123,8 @@ theorem NoPanic.readNamedValues (v : Nat) : NoPanic (readNamedValues v) := by
   rw [Prim.readNamedValues]; no_panic [NoPanic.readNamedValue v]
 theorem NoPanic.readFailureReason : NoPanic readFailureReason := by
   rw [Prim.readFailureReason]; no_panic [NoPanic.readInetAddr]
+theorem NoPanic.readReasonMap : NoPanic readReasonMap := by
+  rw [Prim.readReasonMap]; no_panic [NoPanic.readFailureReason]
 theorem NoPanic.readStreamId (v : Nat) : NoPanic (readStreamId v) := by rw [Prim.readStreamId]; no_panic
 
 end Cql
